@@ -1521,3 +1521,169 @@ pub fn http_method_gate() -> Value {
 		json!({"probe":"http_method_gate","disagrees":false,"inputs_tried":tried,"bound":"13 method tokens x one valid JSON call"})
 	})
 }
+
+// ------------------------------------------------------------------------------------------
+/// C15: the response parser accepts an object exactly when it has one id, exactly one of result/error and a jsonrpc member
+/// that is absent, null or "2.0" (in any JSON spelling); duplicates of known members are rejected, unknown members ignored;
+/// an accepted text round-trips (serialise -> parse -> serialise is stable, and carries jsonrpc "2.0").
+pub fn response_member_forms() -> Value {
+	use jsonrpsee_types::Response;
+	let toks: [(&str, &str); 9] = [
+		("J2", r#""jsonrpc":"2.0""#), ("JN", r#""jsonrpc":null"#), ("JE", r#""jsonrpc":"2\u002e0""#), ("JB", r#""jsonrpc":"1.0""#),
+		("I1", r#""id":1"#), ("IS", r#""id":"a\"b""#), ("R", r#""result":[7,{"k":"v"}]"#), ("E", r#""error":{"code":-32000,"message":"m"}"#), ("X", r#""x":{"id":3}"#),
+	];
+	let mut tried = 0u64;
+	let n = toks.len();
+	for len in 1..=4usize {
+		let mut idx = vec![0usize; len];
+		loop {
+			tried += 1;
+			let names: Vec<&str> = idx.iter().map(|&i| toks[i].0).collect();
+			let text = format!("{{{}}}", idx.iter().map(|&i| toks[i].1).collect::<Vec<_>>().join(","));
+			let cnt = |p: &str| names.iter().filter(|x| x.starts_with(p)).count();
+			let want = cnt("I") == 1 && cnt("R") + cnt("E") == 1 && cnt("J") <= 1 && cnt("JB") == 0;
+			let got = serde_json::from_str::<Response<Value>>(&text);
+			if got.is_ok() != want {
+				return json!({"probe":"response_member_forms","disagrees":true,"input":text,"observed": if got.is_ok() {"accepted".to_string()} else {format!("rejected: {}", got.err().unwrap())},
+					"expected": if want {"accepted (one id, exactly one of result/error, jsonrpc absent/null/\"2.0\")"} else {"rejected"}});
+			}
+			if let Ok(r) = got {
+				let s1 = serde_json::to_string(&r).unwrap_or_default();
+				let r2 = serde_json::from_str::<Response<Value>>(&s1);
+				let s2 = r2.as_ref().ok().and_then(|x| serde_json::to_string(x).ok()).unwrap_or_default();
+				let v1: Value = serde_json::from_str(&s1).unwrap_or(Value::Null);
+				let mut want_v = serde_json::Map::new();
+				// (a parsed response keeps whether the version member was given: absent / null stay absent when re-serialised)
+				if cnt("J2") + cnt("JE") == 1 { want_v.insert("jsonrpc".into(), json!("2.0")); }
+				for &i in &idx {
+					let (nm, t) = toks[i];
+					if nm.starts_with('I') || nm == "R" || nm == "E" {
+						let kv: Value = serde_json::from_str(&format!("{{{t}}}")).unwrap();
+						for (k, v) in kv.as_object().unwrap() { want_v.insert(k.clone(), v.clone()); }
+					}
+				}
+				if s1 != s2 || v1 != Value::Object(want_v.clone()) {
+					return json!({"probe":"response_member_forms","disagrees":true,"input":text,"observed":format!("serialised {s1}; re-parsed and serialised {s2}"),"expected":Value::Object(want_v).to_string()});
+				}
+				// a deserializer that cannot lend out borrowed strings (serde_json::Value) must agree when the text has no duplicate keys
+				let distinct = { let mut k: Vec<&str> = names.iter().map(|x| &x[..1]).collect(); k.sort(); k.dedup(); k.len() == names.len() };
+				if distinct {
+					let as_value: Value = serde_json::from_str::<Value>(&text).unwrap_or(Value::Null);
+					let via_value = <Response<Value> as serde::Deserialize>::deserialize(&as_value).is_ok();
+					if !via_value {
+						return json!({"probe":"response_member_forms","disagrees":true,"input":format!("{text} (parsed to a serde_json::Value first, then from_value)"),"observed":"rejected","expected":"accepted, as from the text"});
+					}
+				}
+			}
+			// next index vector
+			let mut k = len;
+			loop {
+				if k == 0 { break; }
+				k -= 1;
+				idx[k] += 1;
+				if idx[k] < n { break; }
+				idx[k] = 0;
+				if k == 0 { k = usize::MAX; break; }
+			}
+			if k == usize::MAX { break; }
+		}
+	}
+	// requests and notifications: serialise -> parse -> equal, for awkward ids / methods / params
+	{
+		use jsonrpsee_types::{Request, Notification};
+		let ids = [json!(null), json!(0), json!(18446744073709551615u64), json!("a\"\\\n\u{1}\u{e9}")];
+		for idv in ids {
+			tried += 1;
+			let text = json!({"jsonrpc":"2.0","id":idv,"method":"m\"x","params":[1,"\u{7f}",{"a":null}]}).to_string();
+			let req = match serde_json::from_str::<Request>(&text) { Ok(r) => r, Err(e) => return json!({"probe":"response_member_forms","disagrees":true,"input":text,"observed":format!("request rejected: {e}"),"expected":"accepted"}) };
+			let s1 = serde_json::to_string(&req).unwrap_or_default();
+			if serde_json::from_str::<Value>(&s1).ok() != serde_json::from_str::<Value>(&text).ok() {
+				return json!({"probe":"response_member_forms","disagrees":true,"input":text,"observed":s1,"expected":"the same request after parse + serialise"});
+			}
+		}
+		let ntext = json!({"jsonrpc":"2.0","method":"n","params":{"k":[1,2]}}).to_string();
+		tried += 1;
+		match serde_json::from_str::<Notification<Value>>(&ntext) {
+			Ok(nf) => { if serde_json::from_str::<Value>(&serde_json::to_string(&nf).unwrap_or_default()).ok() != serde_json::from_str::<Value>(&ntext).ok() { return json!({"probe":"response_member_forms","disagrees":true,"input":ntext,"observed":"changed by parse + serialise","expected":"unchanged"}); } }
+			Err(e) => return json!({"probe":"response_member_forms","disagrees":true,"input":ntext,"observed":format!("notification rejected: {e}"),"expected":"accepted"}),
+		}
+	}
+	json!({"probe":"response_member_forms","disagrees":false,"inputs_tried":tried,"bound":"all member sequences of length 1..4 over 9 member tokens (jsonrpc x4 spellings, id x2, result, error, unknown); 5 request/notification round trips"})
+}
+
+// ------------------------------------------------------------------------------------------
+/// C04: once a subscription is closed by a successful unsubscribe its sink stays closed — even if a LATER subscription on the
+/// same connection is given the same id by the id provider. Real WS server, raw frames.
+pub fn subscription_id_reuse() -> Value {
+	use jsonrpsee_client_transport::ws::WsTransportClientBuilder;
+	use jsonrpsee_core::client::{ReceivedMessage, TransportReceiverT, TransportSenderT};
+	use jsonrpsee_core::server::SubscriptionMessage;
+	use jsonrpsee_types::SubscriptionId;
+	use std::sync::atomic::{AtomicUsize, Ordering};
+	#[derive(Debug)]
+	struct SameId;
+	impl jsonrpsee_core::traits::IdProvider for SameId { fn next_id(&self) -> SubscriptionId<'static> { SubscriptionId::Num(7) } }
+	rt().block_on(async {
+		let fail = |input: &str, obs: String, exp: &str| json!({"probe":"subscription_id_reuse","disagrees":true,"input":input,"observed":obs,"expected":exp});
+		let server = match jsonrpsee_server::Server::builder().set_config(jsonrpsee_server::ServerConfig::builder().set_id_provider(SameId).build()).build("127.0.0.1:0").await { Ok(s) => s, Err(e) => return json!({"probe":"subscription_id_reuse","error":e.to_string()}) };
+		let addr = server.local_addr().unwrap();
+		let go = std::sync::Arc::new(tokio::sync::Notify::new());
+		let (rep_tx, mut rep_rx) = tokio::sync::mpsc::unbounded_channel::<String>();
+		let mut module = RpcModule::new((AtomicUsize::new(0), go.clone(), rep_tx));
+		module
+			.register_subscription("sub", "notif", "unsub", |_, pending, ctx, _| async move {
+				let nth = ctx.0.fetch_add(1, Ordering::SeqCst);
+				let sink = match pending.accept().await { Ok(s) => s, Err(_) => return };
+				let raw = |s: &str| SubscriptionMessage::from(serde_json::value::RawValue::from_string(s.to_string()).unwrap());
+				if nth == 0 {
+					ctx.1.notified().await;
+					let closed = sink.is_closed();
+					let sent = sink.send(raw("\"a\"")).await.is_ok();
+					let _ = ctx.2.send(format!("first closed={closed} sent={sent}"));
+				} else {
+					let _ = sink.send(raw("\"b\"")).await;
+					tokio::time::sleep(std::time::Duration::from_millis(400)).await;
+				}
+			})
+			.unwrap();
+		let _handle = server.start(module);
+		let url = url::Url::parse(&format!("ws://{}", addr)).unwrap();
+		let (mut tx, mut rx) = match WsTransportClientBuilder::default().build(url).await { Ok(x) => x, Err(e) => return json!({"probe":"subscription_id_reuse","error":e.to_string()}) };
+		async fn next_frame<R: TransportReceiverT>(rx: &mut R, ms: u64) -> Option<Value> {
+			match tokio::time::timeout(std::time::Duration::from_millis(ms), rx.receive()).await {
+				Ok(Ok(ReceivedMessage::Text(t))) => serde_json::from_str(&t).ok(),
+				Ok(Ok(ReceivedMessage::Bytes(b))) => serde_json::from_slice(&b).ok(),
+				_ => None,
+			}
+		}
+		let _ = tx.send(json!({"jsonrpc":"2.0","id":1,"method":"sub"}).to_string()).await;
+		let r1 = next_frame(&mut rx, 2000).await.unwrap_or(Value::Null);
+		if r1["result"] != json!(7) { return fail("subscribe #1", r1.to_string(), "accepted with subscription id 7"); }
+		let _ = tx.send(json!({"jsonrpc":"2.0","id":2,"method":"unsub","params":[7]}).to_string()).await;
+		let r2 = next_frame(&mut rx, 2000).await.unwrap_or(Value::Null);
+		if r2["result"] != json!(true) { return fail("unsubscribe [7] after subscribe #1", r2.to_string(), "true"); }
+		let _ = tx.send(json!({"jsonrpc":"2.0","id":3,"method":"sub"}).to_string()).await;
+		let mut notifs: Vec<Value> = Vec::new();
+		let mut accepted2 = false;
+		for _ in 0..3 {
+			if let Some(f) = next_frame(&mut rx, 1000).await {
+				if f["id"] == json!(3) { accepted2 = f["result"] == json!(7); } else if f["method"] == json!("notif") { notifs.push(f["params"]["result"].clone()); }
+				if accepted2 && !notifs.is_empty() { break; }
+			}
+		}
+		if !accepted2 { return fail("subscribe #2 (the id provider hands out id 7 again)", "not accepted".into(), "accepted with subscription id 7"); }
+		go.notify_one();
+		let rep = tokio::time::timeout(std::time::Duration::from_secs(2), rep_rx.recv()).await.ok().flatten().unwrap_or_default();
+		while let Some(f) = next_frame(&mut rx, 300).await {
+			if f["method"] == json!("notif") { notifs.push(f["params"]["result"].clone()); }
+		}
+		let input = "subscribe (id 7); unsubscribe [7] -> true; subscribe again (id 7 reused); then the FIRST handler, idle so far, checks is_closed() and sends";
+		if rep != "first closed=true sent=false" {
+			return fail(input, rep, "the first subscription's sink reports closed and its send fails");
+		}
+		if notifs != vec![json!("b")] {
+			return fail(input, format!("notifications delivered for subscription 7: {}", Value::Array(notifs)), "only [\"b\"] (the second subscription's own)");
+		}
+		json!({"probe":"subscription_id_reuse","disagrees":false,"histories_tried":1,"bound":"one connection, two subscriptions sharing id 7, one unsubscribe in between"})
+	})
+}
